@@ -56,24 +56,36 @@ def stepperFor (prop : String) : Option Stepper :=
   | "C20" => some (stateless DriverC20.step)
   | _ => none
 
-partial def loop (h : IO.FS.Stream) (out : IO.FS.Stream) (S : Stepper) (st : S.σ) (n : Nat) : IO Unit := do
+/-- a `PANIC:…` in the implementation's output that the property's own step could not read: the code under test
+    panicked inside the harness's guard.  That is a failure of the property's "never a crash" reading, with this line as
+    the replay - not an unreadable line. -/
+def panicFallback (prop : String) (l : Line) (v : Verdict) : Verdict :=
+  match v with
+  | .bad _ =>
+    match l.impl.find? (fun t => (t.splitOn "PANIC:").length > 1) with
+    | some t => .specFail (prop ++ ".panic") s!"{l.op}: the code under test panicked: {t.take 200}"
+    | none => v
+  | _ => v
+
+partial def loop (prop : String) (h : IO.FS.Stream) (out : IO.FS.Stream) (S : Stepper) (st : S.σ) (n : Nat) : IO Unit := do
   let line ← h.getLine
   if line.isEmpty then return ()
   let t := line.trimAscii.toString
   if t.isEmpty || t.startsWith "#" then
-    loop h out S st n
+    loop prop h out S st n
   else if t == "reset" || t.startsWith "reset " then
     out.putStrLn s!"{n} ok"
-    loop h out S S.init (n + 1)
+    loop prop h out S S.init (n + 1)
   else
     match parseLine t with
     | some l =>
-      let (st', v) := S.step st l
+      let (st', v0) := S.step st l
+      let v := panicFallback prop l v0
       out.putStrLn s!"{n} {(v.render.replace "\n" " ")}"
-      loop h out S st' (n + 1)
+      loop prop h out S st' (n + 1)
     | none =>
       out.putStrLn s!"{n} {(Verdict.bad "unparsable line").render}"
-      loop h out S st (n + 1)
+      loop prop h out S st (n + 1)
 
 def main (args : List String) : IO UInt32 := do
   match args with
@@ -82,7 +94,7 @@ def main (args : List String) : IO UInt32 := do
     | some S =>
       let stdin ← IO.getStdin
       let stdout ← IO.getStdout
-      loop stdin stdout S S.init 1
+      loop prop stdin stdout S S.init 1
       return 0
     | none => IO.eprintln s!"unknown property {prop}"; return 2
   | _ => IO.eprintln "usage: driver <property> < ops.txt"; return 2
